@@ -421,10 +421,17 @@ def _random_chunk(args):
 
 # =====================================================================================  main
 def parse_glines(printed):
+    """G lines of MC_Links: the graph (edge string, or "m<mask>" over the pair table of the P line), c|d, 4 outcomes"""
+    pairs = [p[1] for p in printed if isinstance(p, list) and len(p) == 2 and p[0] == "P"]
+    table = [pairs[0][i:i + 2] for i in range(0, len(pairs[0]), 2)] if pairs else []
     out = []
     for p in printed:
-        if isinstance(p, list) and p and p[0] == "G":
-            out.append((p[1], p[2], p[3:7]))
+        if isinstance(p, list) and len(p) == 7 and p[0] == "G":
+            g = p[1]
+            if g.startswith("m"):
+                mask = int(g[1:])
+                g = "".join(table[e] for e in range(len(table)) if mask >> e & 1)
+            out.append((g, "cyclic" if p[2] == "c" else "dag", p[3:7]))
     out.sort()
     return out
 
@@ -469,6 +476,7 @@ def main(argv):
             mine = ["".join(f"{s}{t}" for s, t in V(probe)) for V in VARIANTS]
             if not vt or vt[0][1:5] != mine:
                 machinery_failure(PID, f"{cfgname}: insertion-order variants of the spec {vt[:1]} differ from the harness {mine}")
+            mc.printed, mc.stdout = [], ""  # a million decoded lines: free them before the replay
             total, nontriv, mism = replay_graphs(rep, pool, glines, cfgname)
             n_graph_cases += total
             rep.extra.setdefault("graph_cases_with_2plus_edges", 0)
@@ -506,6 +514,7 @@ def main(argv):
             if not seeds or len(cases) != mc.distinct - seeds[0][1]:
                 machinery_failure(PID, f"{inst_cfg}: {len(cases)} emitted shapes for {mc.distinct} distinct states (seeds {seeds})")
             cases.sort(key=lambda c: shape_key(c["shape"]))
+            mc.printed, mc.stdout = [], ""
         # the machine-mode instance runs while the shapes are replayed
         box = {}
         th = threading.Thread(target=lambda: box.setdefault("r", tlc.run("MC_LinksInst", f"MC_LinksInst_machine_{tier}", workers=max(2, WORKERS // 2), timeout=3000, heap=HEAP)))
